@@ -9,18 +9,28 @@ from fractions import Fraction
 
 import hgxv
 
-RULE = ("random Hypergraph instances: 2-9 nodes with labels from a sparse integer universe (60%), a string universe (25%) "
-        "or 0..N-1 (15%), inserted in random order, 0-2 isolated nodes, 1-10 distinct hyperedges of size 1-5 (every order "
-        "0..max+1 queried, present or absent), weighted (weights k/4) or unweighted; every matrix routine of "
+RULE = ("random Hypergraph instances: 2-9 nodes with labels from a sparse integer universe incl. 0 and labels near 2^40 (50%), "
+        "negative and positive integers (12%), a string universe incl. '' and '0' (25%) or 0..N-1 (13%), inserted in random "
+        "order, built by add_node/add_edge calls or by the constructor, 0-2 isolated nodes, 1-10 distinct hyperedges of size "
+        "1-5 (every order 0..max+1 queried, present or absent), weighted (weights k/4) or unweighted; every matrix routine of "
         "hypergraphx.linalg.linalg and the Hypergraph methods, both keep_isolated_nodes, dense matrices and mapping dicts "
-        "compared entry by entry with the Lean model and with the definition; uniform hypergraphs on 0..N-1 for the tensor; "
+        "compared entry by entry with the Lean model and with the definition; 45% of the static / temporal and 40% of the "
+        "tensor cases continue with a HISTORY of 1-3 blocks of edits of the SAME object (swap a node / an isolated node / a "
+        "hyperedge / several at once so that the numbers of nodes and hyperedges stay equal, re-add a removed node, "
+        "set_weight / accumulate a weight, grow, shrink down to no hyperedge or no node, clear and rebuild, continue on a "
+        "copy; temporal: swap a record within its time, move it to another time, interleave records of an old time, remove "
+        "a node, drop a whole time) and after every block all routines are requested and compared again; after every round "
+        "the returned dicts and matrices are overwritten in place; uniform hypergraphs on 0..N-1 for the tensor; "
         "random TemporalHypergraph records over sparse times for the temporal matrices; hye_list_to_binary_incidence called "
         "directly on index hyperedges with repeated nodes and absent / larger / too small shapes; fixed cases: 256 and 300 hyperedges sharing "
         "two nodes (adjacency), two hyperedges sharing 256 / 300 nodes (dual). A case is distinct by its canonical node and "
-        "hyperedge lists; non-trivial when the labels are not 0..N-1 and at least one pair of hyperedges overlaps")
+        "hyperedge lists and its history; non-trivial when the labels are not 0..N-1 and at least one pair of hyperedges overlaps")
 ASSUMPTIONS = ["hyperedges are non-empty duplicate-free node tuples, distinct as sets (what Hypergraph stores)",
-               "labels are non-negative integers or strings of one type; strings are mapped to their rank in a fixed sorted "
-               "universe before they reach the model (order isomorphism)",
+               "labels are integers or strings of one type; strings are mapped to their rank in a fixed sorted universe and "
+               "possibly negative integers are shifted before they reach the model (order isomorphisms)",
+               "histories consist of edits the container accepts (existing nodes / hyperedges are removed, keep_edges=True never "
+               "empties a hyperedge); what the matrices are compared with is read back from the object after every block",
+               "a hypergraph without any hyperedge: the *_all_orders helpers are not requested (max_order() has no value there)",
                "weights are multiples of 1/4 (binary64 sums and products are then exact; entries are compared exactly)",
                "adjacency_tensor: uniform hypergraph whose nodes are exactly 0..N-1 (as the routine demands)"]
 TRUSTED = ["sklearn LabelEncoder: classes_ = sorted distinct labels, transform = position in classes_ (validated on every case)",
@@ -28,7 +38,7 @@ TRUSTED = ["sklearn LabelEncoder: classes_ = sorted distinct labels, transform =
            "itertools.permutations yields exactly the orderings of its argument"]
 BUDGET_S = {"quick": 50, "thorough": 800}
 
-STR_UNIVERSE = sorted(set([chr(97 + i) * k for i in range(12) for k in (1, 2)] + ["E1", "N0", "Z", "A10", "A9", "10", "9"]))
+STR_UNIVERSE = sorted(set([chr(97 + i) * k for i in range(12) for k in (1, 2)] + ["E1", "N0", "Z", "A10", "A9", "10", "9", "", "0"]))
 
 
 class CaseTimeout(Exception):
@@ -90,12 +100,29 @@ def map_plain(m):
 # --------------------------------------------------------------------------------------------------
 # generators
 
+BIG = 2 ** 40
+
+
+def universe(kind, n):
+    """the labels a hypergraph of this kind may ever hold (initial labels and labels added by a history)"""
+    if kind == "int":
+        return list(range(0, 100)) + [BIG, BIG + 1, BIG + 7]
+    if kind == "neg":
+        return list(range(-40, 41))
+    if kind == "str":
+        return list(STR_UNIVERSE)
+    return list(range(n + 8))                             # "range": the initial labels are 0..n-1
+
+
 def gen_labels(rng, n):
     r = rng.random()
-    if r < 0.60:
+    if r < 0.50:
         kind = "int"
-        labels = rng.sample(range(0, 70), n) if rng.random() < 0.6 else [10 * (i + 1) for i in range(n)]
-    elif r < 0.85:
+        labels = rng.sample(universe(kind, n), n) if rng.random() < 0.6 else [10 * (i + 1) for i in range(n)]
+    elif r < 0.62:
+        kind = "neg"
+        labels = rng.sample(universe(kind, n), n)
+    elif r < 0.87:
         kind = "str"
         labels = rng.sample(STR_UNIVERSE, n)
     else:
@@ -105,7 +132,228 @@ def gen_labels(rng, n):
     return kind, labels
 
 
-def gen_static(rng):
+def ekey(e):
+    return tuple(sorted(e))
+
+
+class Shadow:
+    """nodes / hyperedges a Hypergraph holds after a sequence of edits - used only to GENERATE valid edits
+    (what the matrices are compared with is always read back from the real object)"""
+
+    def __init__(self, weighted, nodes=(), edges=()):
+        self.weighted = weighted
+        self.nodes = []
+        self.edges = {}
+        for x in nodes:
+            self._node(x)
+        for e in edges:
+            self._edge(e)
+
+    def _node(self, x):
+        if x not in self.nodes:
+            self.nodes.append(x)
+
+    def _edge(self, e):
+        for x in ekey(e):
+            self._node(x)
+        self.edges[ekey(e)] = None
+
+    def _rm_node(self, x, keep):
+        for e in [e for e in self.edges if x in e]:
+            del self.edges[e]
+            if keep:
+                self._edge([y for y in e if y != x])
+        self.nodes.remove(x)
+
+    def incident(self, x):
+        return [e for e in self.edges if x in e]
+
+    def isolated(self):
+        return [x for x in self.nodes if not self.incident(x)]
+
+    def can_keep(self, x):
+        return (x,) not in self.edges                      # keep_edges=True would leave an empty hyperedge
+
+    def apply(self, op):
+        k = op[0]
+        if k == "add_node":
+            self._node(op[1])
+        elif k == "add_nodes":
+            for x in op[1]:
+                self._node(x)
+        elif k == "remove_node":
+            self._rm_node(op[1], op[2])
+        elif k == "remove_nodes":
+            for x in op[1]:
+                self._rm_node(x, op[2])
+        elif k == "add_edge":
+            self._edge(op[1])
+        elif k == "add_edges":
+            for e in op[1]:
+                self._edge(e)
+        elif k == "remove_edge":
+            del self.edges[ekey(op[1])]
+        elif k == "remove_edges":
+            for e in op[1]:
+                del self.edges[ekey(e)]
+        elif k == "clear":
+            self.nodes, self.edges = [], {}
+        return op
+
+
+STAGE_TYPES = ["swap_node", "swap_node", "swap_node_edge", "swap_iso", "swap_edge", "swap_edge", "reweight", "readd",
+               "grow", "shrink", "clear_rebuild", "copy_swap", "batch_swap"]
+
+
+def gen_stage(rng, sh, kind, n0):
+    """one block of edits of the SAME object between two rounds of matrix requests; most blocks leave the cheap
+    signatures (number of nodes, number of hyperedges) as they were while the content changes"""
+    univ = universe(kind, n0)
+
+    def fresh():
+        return [x for x in univ if x not in sh.nodes]
+
+    def wt():
+        return hgxv.enc_num(Fraction(rng.randint(1, 16), 4)) if sh.weighted else None
+
+    def new_edge(pool, size=None, must=None):
+        for _ in range(10):
+            k = size if size is not None else rng.choice([1, 2, 2, 3, 3, 4])
+            k = max(1, min(k, len(pool)))
+            e = rng.sample(pool, k)
+            if must is not None and must not in e:
+                e[0] = must
+                if len(set(e)) < len(e):
+                    continue
+            if ekey(e) not in sh.edges:
+                return e
+        return None
+
+    ops = []
+
+    def do(*op):
+        ops.append(sh.apply(list(op)))
+
+    def remove_some_node(x=None):
+        x = rng.choice(sh.nodes) if x is None else x
+        keep = rng.random() < 0.4 and sh.can_keep(x)
+        do("remove_node", x, keep)
+        return x
+
+    typ = rng.choice(STAGE_TYPES)
+    if typ == "copy_swap":
+        do("copy")
+    if typ == "reweight" and not (sh.weighted and sh.edges):
+        typ = "swap_edge"
+    if typ == "swap_iso" and not (sh.isolated() and fresh()):
+        typ = "swap_node"
+    if typ == "swap_edge" and not sh.edges:
+        typ = "grow"
+    if typ in ("swap_node", "swap_node_edge", "copy_swap", "batch_swap", "readd", "shrink") and not sh.nodes:
+        typ = "grow"
+    if typ in ("swap_node", "swap_node_edge", "copy_swap", "batch_swap", "swap_iso", "grow") and not fresh():
+        typ = "shrink" if sh.nodes else "noop"
+
+    if typ in ("swap_node", "copy_swap"):
+        y = rng.choice(fresh())
+        if rng.random() < 0.5:
+            remove_some_node()
+            do("add_node", y)
+        else:
+            do("add_node", y)
+            remove_some_node(rng.choice([x for x in sh.nodes if x != y]))
+    elif typ == "swap_node_edge":
+        y = rng.choice(fresh())
+        remove_some_node()
+        e = new_edge(sh.nodes + [y], must=y)
+        if e is None:
+            do("add_node", y)
+        else:
+            do("add_edge", e, wt())
+    elif typ == "swap_iso":
+        y = rng.choice(fresh())
+        do("remove_node", rng.choice(sh.isolated()), rng.random() < 0.5)
+        do("add_node", y)
+    elif typ == "batch_swap":
+        k = rng.randint(1, min(3, len(sh.nodes), len(fresh())))
+        out = rng.sample(sh.nodes, k)
+        keep = rng.random() < 0.3 and all(sh.can_keep(x) for x in out) and not any(
+            set(e) <= set(out) for e in sh.edges)
+        ins = rng.sample(fresh(), k)
+        do("remove_nodes", out, keep)
+        do("add_nodes", ins)
+    elif typ == "swap_edge":
+        e = rng.choice(list(sh.edges))
+        if rng.random() < 0.5:
+            do("remove_edge", list(e))
+            f = new_edge(sh.nodes, size=len(e) if rng.random() < 0.6 else None)
+            if f is not None and ekey(f) != e:
+                do("add_edge", f, wt())
+        else:
+            k = rng.randint(1, min(3, len(sh.edges)))
+            out = rng.sample(list(sh.edges), k)
+            do("remove_edges", [list(x) for x in out])
+            ins = []
+            for x in out:
+                f = new_edge(sh.nodes, size=len(x) if rng.random() < 0.6 else None)
+                if f is not None and ekey(f) not in [ekey(g) for g in ins]:
+                    ins.append(f)
+            if ins:
+                do("add_edges", ins, [wt() for _ in ins] if sh.weighted else None)
+    elif typ == "reweight":
+        e = list(rng.choice(list(sh.edges)))
+        do(rng.choice(["set_weight", "add_edge"]), e, wt())
+    elif typ == "readd":
+        x = remove_some_node()
+        do("add_node", x)
+    elif typ == "grow":
+        r = rng.random()
+        fr = fresh()
+        if r < 0.3 or not sh.nodes:
+            do("add_nodes", rng.sample(fr, min(len(fr), rng.randint(1, 2))))
+        elif r < 0.5:
+            do("add_node", rng.choice(fr))
+        else:
+            y = rng.choice(fr)
+            e = new_edge(sh.nodes + [y], must=y if rng.random() < 0.6 else None)
+            if e is not None:
+                do("add_edge", e, wt())
+    elif typ == "shrink":
+        r = rng.random()
+        if r < 0.4 and sh.edges:
+            do("remove_edge", list(rng.choice(list(sh.edges))))
+        elif r < 0.55 and len(sh.nodes) >= 2:
+            do("remove_nodes", rng.sample(sh.nodes, 2), False)
+        else:
+            remove_some_node()
+    elif typ == "clear_rebuild":
+        n, m = len(sh.nodes), len(sh.edges)
+        sizes = [len(e) for e in sh.edges]
+        do("clear")
+        if rng.random() < 0.3:
+            return "clear_only", ops                      # the next requests go to an object without nodes and hyperedges
+        if n:
+            do("add_nodes", rng.sample(univ, min(n, len(univ))))
+        ins = []
+        for k in sizes:
+            f = new_edge(sh.nodes, size=k)
+            if f is not None and ekey(f) not in [ekey(g) for g in ins]:
+                ins.append(f)
+        if ins:
+            do("add_edges", ins, [wt() for _ in ins] if sh.weighted else None)
+    return typ, ops
+
+
+def gen_history(rng, sh, kind, n0):
+    hist = []
+    for _ in range(rng.choice([1, 1, 2, 2, 3])):
+        typ, ops = gen_stage(rng, sh, kind, n0)
+        if ops:
+            hist.append({"type": typ, "ops": ops})
+    return hist
+
+
+def gen_static(rng, with_history=None):
     n = rng.randint(2, 9)
     kind, labels = gen_labels(rng, n)
     n_iso = rng.choice([0, 0, 1, 1, 2]) if n > 2 else 0
@@ -128,8 +376,15 @@ def gen_static(rng):
     order = list(labels)
     rng.shuffle(order)
     pre = [x for x in order if rng.random() < 0.5]      # nodes added before the hyperedges, in random order
-    return {"kind": "static", "labels": kind, "pre_nodes": pre, "nodes": order, "edges": [list(e) for e in edges],
-            "weighted": weighted, "weights": [hgxv.enc_num(w) for w in weights]}
+    case = {"kind": "static", "labels": kind, "pre_nodes": pre, "nodes": order, "edges": [list(e) for e in edges],
+            "weighted": weighted, "weights": [hgxv.enc_num(w) for w in weights],
+            "build": rng.choice(["calls", "calls", "ctor"])}
+    if with_history if with_history is not None else rng.random() < 0.45:
+        sh = Shadow(weighted, pre, edges)
+        for x in order:
+            sh._node(x)
+        case["history"] = gen_history(rng, sh, kind, n)
+    return case
 
 
 def gen_tensor(rng):
@@ -141,7 +396,32 @@ def gen_tensor(rng):
     edges = [list(rng.sample(e, len(e))) for e in allk[:m]]
     if rng.random() < 0.2 and n >= 3 and k < n:
         edges.append(list(range(k + 1)))                 # non-uniform: the routine must reject
-    return {"kind": "tensor", "n": n, "edges": edges}
+    case = {"kind": "tensor", "n": n, "edges": edges}
+    if rng.random() < 0.4:
+        # edits of the same object that keep the node set 0..n-1 and at least one hyperedge
+        sh = Shadow(False, range(n), edges)
+        hist = []
+        for _ in range(rng.randint(1, 2)):
+            ops = []
+            r = rng.random()
+            if r < 0.6 and len(sh.edges) >= 1:
+                e = rng.choice(list(sh.edges))
+                cand = [f for f in itertools.combinations(range(n), len(e)) if f not in sh.edges]
+                if cand:
+                    f = list(rng.choice(cand))
+                    rng.shuffle(f)
+                    ops.append(sh.apply(["remove_edge", list(e)]))
+                    ops.append(sh.apply(["add_edge", f, None]))
+            elif r < 0.8 and len(sh.edges) >= 2:
+                ops.append(sh.apply(["remove_edge", list(rng.choice(list(sh.edges)))]))
+            else:
+                cand = [f for kk in range(1, min(3, n) + 1) for f in itertools.combinations(range(n), kk) if f not in sh.edges]
+                if cand:
+                    ops.append(sh.apply(["add_edge", list(rng.choice(cand)), None]))
+            if ops:
+                hist.append({"type": "tensor_edit", "ops": ops})
+        case["history"] = hist
+    return case
 
 
 def gen_hye(rng):
@@ -173,8 +453,92 @@ def gen_temporal(rng):
     weighted = rng.random() < 0.35
     weights = [Fraction(rng.randint(1, 16), 4) for _ in recs] if weighted else [1] * len(recs)
     iso = [x for x in labels if rng.random() < 0.1]
-    return {"kind": "temporal", "labels": kind, "iso": iso, "recs": [[t, list(e)] for t, e in recs], "weighted": weighted,
+    case = {"kind": "temporal", "labels": kind, "iso": iso, "recs": [[t, list(e)] for t, e in recs], "weighted": weighted,
             "weights": [hgxv.enc_num(w) for w in weights]}
+    if rng.random() < 0.45:
+        case["history"] = gen_temporal_history(rng, kind, n, labels, weighted, recs, iso)
+    return case
+
+
+def gen_temporal_history(rng, kind, n, labels, weighted, recs, iso):
+    """edits of the same TemporalHypergraph between two rounds of requests (at least one record always remains)"""
+    cur = {(t, ekey(e)): None for t, e in recs}           # insertion-ordered, as the implementation lists them
+    nodes = set(iso) | set(x for _, e in recs for x in e)
+    all_times = [0, 1, 2, 3, 5, 8, 13, 40]
+
+    def wt():
+        return hgxv.enc_num(Fraction(rng.randint(1, 16), 4)) if weighted else None
+
+    def new_rec(t=None, size=None):
+        for _ in range(10):
+            tt = rng.choice(all_times) if t is None else t
+            k = min(n, size if size is not None else rng.choice([1, 2, 2, 3, 3, 4]))
+            e = rng.sample(labels, k)
+            if (tt, ekey(e)) not in cur:
+                return tt, e
+        return None
+
+    hist = []
+    for _ in range(rng.choice([1, 1, 2, 3])):
+        ops = []
+        typ = rng.choice(["swap_same_time", "move_time", "interleave", "remove_node", "reweight", "drop_time", "copy_swap"])
+        if typ == "copy_swap":
+            ops.append(["copy"])
+        if typ in ("swap_same_time", "move_time", "copy_swap"):
+            t, e = rng.choice(list(cur))
+            nr = new_rec(t=t if typ != "move_time" else None, size=len(e) if rng.random() < 0.6 else None)
+            if typ == "move_time":
+                t2 = rng.choice([x for x in all_times if x != t])
+                nr = (t2, list(e)) if (t2, e) not in cur else None
+            if nr is not None:
+                first_remove = rng.random() < 0.6
+                if first_remove:
+                    ops.append(["t_remove_edge", list(e), t])
+                ops.append(["t_add_edge", nr[1], nr[0], wt()])
+                if not first_remove:
+                    ops.append(["t_remove_edge", list(e), t])
+                del cur[(t, e)]
+                cur[(nr[0], ekey(nr[1]))] = None
+                nodes |= set(nr[1])
+        elif typ == "interleave":
+            for _ in range(rng.randint(1, 3)):
+                used = sorted(set(t for t, _ in cur))
+                nr = new_rec(t=rng.choice(used))
+                if nr is not None:
+                    ops.append(["t_add_edge", nr[1], nr[0], wt()])
+                    cur[(nr[0], ekey(nr[1]))] = None
+                    nodes |= set(nr[1])
+        elif typ == "remove_node":
+            x = rng.choice(sorted(nodes, key=repr))
+            keep = rng.random() < 0.4
+            after = {}
+            for (t, e) in cur:
+                if x in e:
+                    if keep and len(e) > 1:
+                        after[(t, tuple(y for y in e if y != x))] = None
+                else:
+                    after[(t, e)] = None
+            # listing order after keep_edges=True is not reproduced here: only membership matters
+            if after:
+                ops.append(["t_remove_node", x, keep])
+                cur = after
+                nodes.discard(x)
+        elif typ == "reweight":
+            t, e = rng.choice(list(cur))
+            if weighted:
+                ops.append([rng.choice(["t_set_weight", "t_add_edge"]), list(e), t, wt()])
+            else:
+                ops.append(["t_add_edge", list(e), t, None])       # re-adding a present record changes nothing
+        elif typ == "drop_time":
+            t = rng.choice(sorted(set(t for t, _ in cur)))
+            out = [(tt, e) for (tt, e) in cur if tt == t]
+            if len(out) < len(cur):
+                for (tt, e) in out:
+                    ops.append(["t_remove_edge", list(e), tt])
+                    del cur[(tt, e)]
+        if [op for op in ops if op != ["copy"]]:
+            hist.append({"type": "t_" + typ, "ops": ops})
+    return hist
 
 
 def fixed_cases():
@@ -203,7 +567,12 @@ def fixed_cases():
 # helpers shared by the oracles
 
 def to_nat(kind, x):
-    return STR_UNIVERSE.index(x) if kind == "str" else int(x)
+    """order isomorphism of the label universe into the naturals (the model's labels)"""
+    if kind == "str":
+        return STR_UNIVERSE.index(x)
+    if kind == "neg":
+        return int(x) + 40
+    return int(x)
 
 
 def check_mapping(ctx, case, what, m, want_nodes):
@@ -260,6 +629,14 @@ def obs_matrix(ob, line, res):
 def build_static(case):
     from hypergraphx import Hypergraph
     weights = [hgxv.dec_num(w) for w in case["weights"]]
+    if case.get("build") == "ctor":
+        if case["weighted"]:
+            h = Hypergraph(edge_list=[tuple(e) for e in case["edges"]], weighted=True, weights=[float(w) for w in weights])
+        else:
+            h = Hypergraph(edge_list=[tuple(e) for e in case["edges"]])
+        for x in case["pre_nodes"] + case["nodes"]:
+            h.add_node(x)
+        return h
     h = Hypergraph(weighted=case["weighted"])
     for x in case["pre_nodes"]:
         h.add_node(x)
@@ -273,6 +650,101 @@ def build_static(case):
     return h
 
 
+def apply_op(h, op, weighted):
+    """one edit of a history on the object `h`; returns the object the next requests go to"""
+    k = op[0]
+
+    def w(x):
+        return float(hgxv.dec_num(x)) if x is not None else None
+    if k == "copy":
+        return h.copy()
+    if k == "clear":
+        h.clear()
+    elif k == "add_node":
+        h.add_node(op[1])
+    elif k == "add_nodes":
+        h.add_nodes(list(op[1]))
+    elif k == "remove_node":
+        h.remove_node(op[1], keep_edges=bool(op[2]))
+    elif k == "remove_nodes":
+        h.remove_nodes(list(op[1]), keep_edges=bool(op[2]))
+    elif k == "add_edge":
+        if weighted:
+            h.add_edge(tuple(op[1]), w(op[2]))
+        else:
+            h.add_edge(tuple(op[1]))
+    elif k == "add_edges":
+        if weighted:
+            h.add_edges([tuple(e) for e in op[1]], weights=[w(x) for x in op[2]])
+        else:
+            h.add_edges([tuple(e) for e in op[1]])
+    elif k == "remove_edge":
+        h.remove_edge(tuple(op[1]))
+    elif k == "remove_edges":
+        h.remove_edges([tuple(e) for e in op[1]])
+    elif k == "set_weight":
+        h.set_weight(tuple(op[1]), w(op[2]))
+    elif k == "t_add_edge":
+        if weighted:
+            h.add_edge(tuple(op[1]), op[2], w(op[3]))
+        else:
+            h.add_edge(tuple(op[1]), op[2])
+    elif k == "t_remove_edge":
+        h.remove_edge(tuple(op[1]), op[2])
+    elif k == "t_remove_node":
+        h.remove_node(op[1], keep_edges=bool(op[2]))
+    elif k == "t_set_weight":
+        h.set_weight(tuple(op[1]), op[2], w(op[3]))
+    else:
+        raise ValueError("unknown history op " + repr(k))
+    return h
+
+
+def scribble(objs):
+    """the caller owns what a routine returned: overwriting the returned mapping dicts / matrices in place must not
+    influence any later answer (a result handed out by reference from a cache would)"""
+    for o in objs:
+        try:
+            if isinstance(o, dict):
+                scribble(list(o.values()))
+                o.clear()
+            elif isinstance(o, (tuple, list)):
+                scribble(list(o))
+            elif hasattr(o, "data") and hasattr(o.data, "fill"):
+                o.data.fill(7)
+            elif hasattr(o, "fill"):
+                o.fill(7)
+        except Exception:  # noqa: BLE001
+            pass
+
+
+class Tagged:
+    """ctx whose reports carry the position in the history"""
+
+    def __init__(self, ctx, tag):
+        self._ctx, self._tag = ctx, tag
+
+    def violation(self, case, what):
+        self._ctx.violation(case, self._tag + what)
+
+    def __getattr__(self, name):
+        return getattr(self._ctx, name)
+
+
+def run_history(ctx, case, h, audit, weighted):
+    """audit, then for every block of the history: edit the SAME object, audit again"""
+    audit(ctx, h)
+    for k, stage in enumerate(case.get("history", []), 1):
+        ctx.count("history_" + stage["type"])
+        for op in stage["ops"]:
+            res = guarded(apply_op, h, op, weighted)
+            if res[0] == "exc":
+                ctx.violation(case, f"history block {k}: the edit {op!r} of the hypergraph raised {res[1]}")
+                return
+            h = res[1]
+        audit(Tagged(ctx, f"after history block {k} ({stage['type']}: {stage['ops']!r}) on the same object: "), h)
+
+
 def adjacency_definition(nodes_by_row, edges):
     n = len(nodes_by_row)
     sets = [set(e) for e in edges]
@@ -281,20 +753,38 @@ def adjacency_definition(nodes_by_row, edges):
 
 
 def check_static(ctx, drv, case):
-    from hypergraphx.linalg import linalg as L
-    kind = case["labels"]
-    profile = case.get("profile", "full")
     st, h = guarded(build_static, case)
     if st == "exc":
         ctx.violation(case, "building the hypergraph through add_node/add_edge raised " + h)
         return
-    nodes = list(h.get_nodes())
-    edges = [tuple(e) for e in h.get_edges()]
-    wts = [frac(w) for w in h.get_weights()]
+    ob = Obs()
+    first = {}
+
+    def audit(c, hh):
+        info = audit_static(c, case, hh, ob)
+        first.setdefault("info", info)
+    run_history(ctx, case, h, audit, case["weighted"])
+    key, nontrivial, n_edges = first["info"]
+    if case.get("history"):
+        ctx.count("static_with_history")
+    ctx.case(key + repr(case.get("history", "")), nontrivial, sample={k: v for k, v in case.items()} if n_edges <= 12 else None)
+    compare(ctx, drv, case, ob)
+
+
+def audit_static(ctx, case, h, ob):
+    """every matrix routine on the object `h` as it is now: oracles from the property's words + model lines"""
+    from hypergraphx.linalg import linalg as L
+    kind = case["labels"]
+    profile = case.get("profile", "full")
+    st, listing = guarded(lambda: (list(h.get_nodes()), [tuple(e) for e in h.get_edges()], [frac(w) for w in h.get_weights()]))
+    if st == "exc" or len(listing[1]) != len(listing[2]):
+        ctx.violation(case, "get_nodes / get_edges / get_weights of the hypergraph failed: " + str(listing)[:120])
+        return "unlisted", False, 0
+    nodes, edges, wts = listing
     weighted = case["weighted"]
     N, E = len(nodes), len(edges)
     esets = [set(e) for e in edges]
-    ob = Obs()
+    returned = []
     ob.add("load " + hgxv.enc_list([to_nat(kind, x) for x in nodes]) + " "
            + hgxv.enc_lists([[to_nat(kind, x) for x in e] for e in edges]) + " " + hgxv.enc_list(wts), "ok")
     overlap = any(esets[a] & esets[b] for a in range(E) for b in range(a + 1, E))
@@ -302,6 +792,10 @@ def check_static(ctx, drv, case):
     key = repr((sorted(map(repr, nodes)), sorted((sorted(map(repr, e)), str(w)) for e, w in zip(edges, wts)), weighted, profile))
     ctx.count("static_" + kind)
     ctx.count("weighted" if weighted else "unweighted")
+    if E == 0:
+        ctx.count("static_edgeless")
+    if N == 0:
+        ctx.count("static_nodeless")
 
     def routes(fname, *a, **k):
         """the linalg function and, where it exists, the Hypergraph method"""
@@ -315,6 +809,7 @@ def check_static(ctx, drv, case):
         if res[0] == "exc":
             ctx.violation(case, f"{what} raised {res[1]}")
             return None
+        returned.append(res[1])
         try:
             M, m = res[1]
             m = map_plain(m)
@@ -332,6 +827,7 @@ def check_static(ctx, drv, case):
         if res[0] == "exc":
             ctx.violation(case, f"{what} without return_mapping raised {res[1]}")
             return
+        returned.append(res[1])
         dd = guarded(dense, res[1])
         if dd[0] == "exc" or dd[1] != d_with:
             ctx.violation(case, f"{what}: the matrix returned without return_mapping differs from the one returned with it")
@@ -396,9 +892,16 @@ def check_static(ctx, drv, case):
     # ---- per-order variants ------------------------------------------------------------------------------
     if profile == "full":
         maxd = max(len(e) for e in edges) - 1 if edges else 0
-        all_inc = guarded(L.incidence_matrices_all_orders, h, None, True, False)
-        all_lap = guarded(L.laplacian_matrices_all_orders, h)
+        if edges:
+            all_inc = guarded(L.incidence_matrices_all_orders, h, None, True, False)
+            all_lap = guarded(L.laplacian_matrices_all_orders, h)
+        else:
+            # without any hyperedge max_order() has no value and the *_all_orders helpers raise; nothing is claimed
+            all_inc = all_lap = ("skip", None)
+        returned.extend([all_inc[1], all_lap[1]])
         for name, res in (("incidence_matrices_all_orders", all_inc), ("laplacian_matrices_all_orders", all_lap)):
+            if res[0] == "skip":
+                continue
             if res[0] == "exc":
                 ctx.violation(case, f"{name} raised {res[1]}")
             elif sorted(res[1].keys()) != list(range(1, maxd + 1)):
@@ -454,6 +957,7 @@ def check_static(ctx, drv, case):
                     ctx.violation(case, f"{what} raised {res[1]}")
                     ob.add(f"deg {d_}", "exc")
                 else:
+                    returned.append(res[1])
                     dd = guarded(dense, res[1])
                     if dd[0] == "exc":
                         ctx.violation(case, f"{what}: not a matrix")
@@ -468,6 +972,7 @@ def check_static(ctx, drv, case):
                         ctx.violation(case, f"{what} raised {res[1]}")
                         ob.add(f"{q} {d_}", "exc")
                         continue
+                    returned.append(res[1])
                     dd = guarded(dense, res[1])
                     if dd[0] == "exc":
                         ctx.violation(case, f"{what}: not a matrix")
@@ -490,8 +995,8 @@ def check_static(ctx, drv, case):
                             if not same:
                                 ctx.violation(case, f"laplacian_matrices_all_orders[{d_}] differs from laplacian_matrix_by_order({d_})")
 
-    ctx.case(key, nontrivial, sample={k: v for k, v in case.items()} if len(edges) <= 12 else None)
-    compare(ctx, drv, case, ob)
+    scribble(returned)
+    return key, nontrivial, len(edges)
 
 
 def compare(ctx, drv, case, ob):
@@ -508,9 +1013,7 @@ def compare(ctx, drv, case, ob):
 # adjacency tensor
 
 def check_tensor(ctx, drv, case):
-    import numpy as np
     from hypergraphx import Hypergraph
-    from hypergraphx.linalg import linalg as L
     n, edges = case["n"], [tuple(e) for e in case["edges"]]
     st, h = guarded(lambda: Hypergraph(edge_list=edges))
     if st == "exc":
@@ -518,9 +1021,23 @@ def check_tensor(ctx, drv, case):
         return
     for x in range(n):
         h.add_node(x)
+    ob = Obs()
+    first = {}
+
+    def audit(c, hh):
+        first.setdefault("edges", audit_tensor(c, case, hh, ob))
+    run_history(ctx, case, h, audit, False)
+    hedges = first["edges"]
+    ctx.case(repr(("tensor", n, sorted(map(sorted, hedges)), case.get("history", ""))), len(hedges) >= 2, sample=case)
+    compare(ctx, drv, case, ob)
+
+
+def audit_tensor(ctx, case, h, ob):
+    import numpy as np
+    from hypergraphx.linalg import linalg as L
+    n = case["n"]
     hedges = [tuple(e) for e in h.get_edges()]
     sizes = set(len(e) for e in hedges)
-    ob = Obs()
     ob.add("load " + hgxv.enc_list(list(h.get_nodes())) + " " + hgxv.enc_lists(hedges) + " " + hgxv.enc_list([1] * len(hedges)), "ok")
     res = guarded(L.adjacency_tensor, h)
     ctx.count("tensor_uniform" if len(sizes) == 1 else "tensor_nonuniform")
@@ -547,8 +1064,8 @@ def check_tensor(ctx, drv, case):
                         ctx.violation(case, f"adjacency_tensor{list(p)} = {T[p]}, the indicator of the hyperedges gives {want}")
                         break
                 ob.add(f"tensor {n}", hgxv.enc_list([frac(v) for v in T.flatten().tolist()]))
-    ctx.case(repr(("tensor", n, sorted(map(sorted, hedges)))), len(hedges) >= 2, sample=case)
-    compare(ctx, drv, case, ob)
+            scribble([res[1]])
+    return hedges
 
 
 # --------------------------------------------------------------------------------------------------
@@ -591,8 +1108,6 @@ def check_hye(ctx, drv, case):
 
 def check_temporal(ctx, drv, case):
     from hypergraphx import TemporalHypergraph
-    from hypergraphx.linalg import linalg as L
-    kind = case["labels"]
     weights = [hgxv.dec_num(w) for w in case["weights"]]
     weighted = case["weighted"]
 
@@ -610,20 +1125,45 @@ def check_temporal(ctx, drv, case):
     if st == "exc":
         ctx.violation(case, "building the temporal hypergraph raised " + th)
         return
-    recs = [(t, tuple(e)) for t, e in th.get_edges()]
-    wts = [frac(th.get_weight(e, t)) for t, e in recs]
-    times = sorted(set(t for t, _ in recs))
     ob = Obs()
+    first = {}
+
+    def audit(c, hh):
+        first.setdefault("info", audit_temporal(c, case, hh, ob))
+    run_history(ctx, case, th, audit, weighted)
+    key, nontrivial = first["info"]
+    if case.get("history"):
+        ctx.count("temporal_with_history")
+    ctx.case(key + repr(case.get("history", "")), nontrivial, sample=case)
+    compare(ctx, drv, case, ob)
+
+
+def audit_temporal(ctx, case, th, ob):
+    from hypergraphx.linalg import linalg as L
+    kind = case["labels"]
+    weighted = case["weighted"]
+    returned = []
+    st, listing = guarded(lambda: [(t, tuple(e), frac(th.get_weight(e, t))) for t, e in th.get_edges()])
+    if st == "exc":
+        ctx.violation(case, "get_edges / get_weight of the temporal hypergraph raised " + listing)
+        return "unlisted", False
+    recs = [(t, e) for t, e, _ in listing]
+    wts = [w for _, _, w in listing]
+    times = sorted(set(t for t, _ in recs))
     ob.add("tload " + hgxv.enc_list([t for t, _ in recs]) + " " + hgxv.enc_lists([[to_nat(kind, x) for x in e] for _, e in recs])
            + " " + hgxv.enc_list(wts), "ok")
     ob.add("ttimes", hgxv.enc_list(times))
     ctx.count("temporal_" + kind)
+    runs = [t for i, (t, _) in enumerate(recs) if i == 0 or recs[i - 1][0] != t]
+    if len(runs) > len(set(runs)):
+        ctx.count("temporal_interleaved")
 
     def per_time(what, res, by_order=None):
         """res: ('ok', (dict t->matrix, dict t->mapping)); oracle + observations"""
         if res[0] == "exc":
             ctx.violation(case, f"{what} raised {res[1]}")
             return
+        returned.append(res[1])
         try:
             mats, maps = res[1]
             keys = sorted(mats.keys())
@@ -662,6 +1202,7 @@ def check_temporal(ctx, drv, case):
     for what, f, args in (("temporal_adjacency_matrix", L.temporal_adjacency_matrix, ()),
                           ("TemporalHypergraph.temporal_adjacency_matrix", th.temporal_adjacency_matrix, ())):
         r1, r2 = guarded(f, *((th,) if f is L.temporal_adjacency_matrix else ()), True), guarded(f, *((th,) if f is L.temporal_adjacency_matrix else ()))
+        returned.extend([r1[1], r2[1]])
         if r1[0] == "ok":
             try:
                 same = r2[0] == "ok" and sorted(r2[1].keys()) == sorted(r1[1][0].keys()) and all(
@@ -681,6 +1222,7 @@ def check_temporal(ctx, drv, case):
     if res[0] == "exc":
         ctx.violation(case, "temporal_adjacency_matrices_all_orders raised " + res[1])
     else:
+        returned.append(res[1])
         try:
             mats, maps = res[1]
             if sorted(mats.keys()) != list(range(1, maxd + 1)):
@@ -693,9 +1235,8 @@ def check_temporal(ctx, drv, case):
         except Exception as e:  # noqa: BLE001
             ctx.violation(case, "temporal_adjacency_matrices_all_orders: malformed result " + type(e).__name__)
     multi = any(len([1 for (tt, _) in recs if tt == t]) >= 2 for t in times)
-    ctx.case(repr(("temporal", sorted((t, sorted(map(repr, e)), str(w)) for (t, e), w in zip(recs, wts)))),
-             multi and len(times) >= 2, sample=case)
-    compare(ctx, drv, case, ob)
+    scribble(returned)
+    return repr(("temporal", sorted((t, sorted(map(repr, e)), str(w)) for (t, e), w in zip(recs, wts)))), multi and len(times) >= 2
 
 
 # --------------------------------------------------------------------------------------------------
